@@ -9,6 +9,7 @@
     mgrinit <n1,n2,..> <r> <e> <y>                         -> <rc> <nsockets> [<r> <e> <y> <mode>]
     eod <mode> <sockver> <pduver> <r> <e> <y> <pr> <py> <pe> <now>
                                                            -> <rc> <r> <e> <y> <version> <last_update>
+    setmode <cur> <option>                                 -> <mode afterwards>
     wait <last_update> <refresh> <now> <notify|other|timeout|intr|error>
                                                            -> <rc> <timeout>
     fsm <mode> <ver> <now> <ri> <ei> <yi> <e0> <r0> <y0> [N:dt:e:r:y | T:0:e:r:y | X:dt | I:dt]*
@@ -101,6 +102,10 @@ def step (_ : Unit) (line : String) : Unit × String :=
       let (s, rc) := syncCrEod s0 pv pe pr py now
       ((), s!"{rc} {sockStr s} {s.version} {s.lastUpdate}")
     | _, _, _, _, _, _, _, _, _, _ => bad
+  | ["setmode", cur, o] => match int32? cur, int32? o with
+    | some cur, some o =>
+      ((), s!"{(setIntervalMode { refresh := 3600, expire := 7200, retry := 600, ivMode := cur } o).ivMode}")
+    | _, _ => bad
   | ["wait", last, refresh, now, ev] => match time? last, u32? refresh, time? now, event? ev with
     | some last, some refresh, some now, some ev =>
       let s : Sock := { refresh := refresh, expire := 7200, retry := 600, ivMode := 0, lastUpdate := last }
